@@ -232,14 +232,22 @@ pub fn random_line_tokens(rng: &mut Rng) -> Vec<Vec<u8>> {
     match rng.below(5) {
         0 => {
             // UNKNOWN
-            let text: Vec<u8> = match rng.below(8) {
+            let text: Vec<u8> = match rng.below(10) {
+                8 => t("  two  spaces   "),
+                9 => {
+                    let k = rng.range(2, 5) as usize;
+                    let mut v = vec![b' '; k];
+                    v.extend_from_slice(b"x y");
+                    v
+                }
                 0 => vec![],
                 1 => t(" "),
                 2 => t(" a b c d e f"),
                 3 => t(" \n"),
                 4 => " h\u{e9}llo \u{20ac} \u{1F600}".as_bytes().to_vec(),
                 5 => {
-                    let n = rng.range(80, 92) as usize;
+                    // total line length 105..=108: both sides of the 107-byte limit
+                    let n = rng.range(89, 92) as usize;
                     let mut v = vec![b' '];
                     v.extend((0..n).map(|i| b"abc d:."[(i + rng.below(3) as usize) % 7]));
                     v
@@ -267,6 +275,13 @@ pub fn random_line_tokens(rng: &mut Rng) -> Vec<Vec<u8>> {
         }
         _ => {
             let (a, b) = (random_groups(rng), random_groups(rng));
+            if rng.chance(1, 8) {
+                // the longest lines the grammar allows: dotted tails push a TCP6 line to 107 bytes
+                let long = |g: [u16; 8]| format!("{:04x}:{:04x}:{:04x}:{:04x}:{:04x}:{:04x}:{}.{}.{}.{}", g[0], g[1], g[2], g[3], g[4], g[5], 200 + (g[6] % 56), 100 + (g[6] >> 8) % 100, 100 + (g[7] & 0xff) % 100, 255);
+                let ports = *rng.pick(&[("65535", "65535"), ("65535", "6553"), ("10000", "20000")]);
+                return vec![t("PROXY"), t(" "), t("TCP6"), t(" "), long(a).into_bytes(), t(" "), long(b).into_bytes(), t(" "),
+                            t(ports.0), t(" "), t(ports.1), t("\r"), t("\n")];
+            }
             vec![
                 t("PROXY"), t(" "), t("TCP6"), t(" "), render_ipv6(a, rng).into_bytes(), t(" "),
                 render_ipv6(b, rng).into_bytes(), t(" "),
@@ -320,7 +335,11 @@ pub fn corrupt_line(tokens: &[Vec<u8>], rng: &mut Rng) -> (Value, Vec<u8>) {
         "dst" => (6, if is6 { s(rng.pick(ADDR6_REPL)) } else { s(rng.pick(ADDR4_REPL)) }),
         "sport" => (8, s(rng.pick(PORT_REPL))),
         "dport" => (10, s(rng.pick(PORT_REPL))),
-        "lf" => (tokens.len() - 1, vec![*rng.pick(LF_REPL)]),
+        "lf" => (tokens.len() - 1, if rng.chance(1, 4) {
+            rng.pick(&["\u{e9}", "\u{20ac}", "\u{1F600}", "\u{7ff}"]).as_bytes().to_vec()
+        } else {
+            vec![*rng.pick(LF_REPL)]
+        }),
         "long" => {
             let n = 108 - 15 + rng.below(4) as usize - 1;
             let mut v = vec![b' '];
@@ -528,7 +547,7 @@ pub fn generate(name: &str, count: usize, rng: &mut Rng, sink: &mut dyn FnMut(Se
                 }
                 match rng.below(4) {
                     0 => {}
-                    1 => { let p = rng.range(103, 110) as usize; if p < bytes.len() { bytes[p] = b'\r'; if p + 1 < bytes.len() { bytes[p + 1] = b'\n'; } } }
+                    1 => { let p = *rng.pick(&[103usize, 104, 105, 105, 105, 106, 107, 108]); if p < bytes.len() { bytes[p] = b'\r'; if p + 1 < bytes.len() { bytes[p + 1] = b'\n'; } } }
                     2 => { bytes.extend_from_slice(b"\r\n"); }
                     _ => { let p = rng.range(104, 108) as usize; if p < bytes.len() { bytes.truncate(p); } bytes.extend_from_slice(b"\r\n"); }
                 }
@@ -626,21 +645,41 @@ pub fn generate(name: &str, count: usize, rng: &mut Rng, sink: &mut dyn FnMut(Se
                 lens.extend([(1usize << k) - 1, 1 << k, (1 << k) + 1]);
             }
             lens.extend([65534, 65535]);
+            // the largest declared lengths, with the bytes present at every interesting relation
+            // to 16 + length and to the 65535 mark
+            let mut forced: Vec<(usize, usize)> = Vec::new();
+            for l in [65519usize, 65520, 65534, 65535] {
+                for have in [l - 1, l, l + 1, 65535 - 16, 65535 - 17] {
+                    forced.push((l, have));
+                }
+            }
+            let nforced = if count >= 2000 { forced.len() } else { 10 };
+            let start = rng.below(forced.len() as u64) as usize;
             for i in 0..count {
-                let l = if i < lens.len() && count >= lens.len() { lens[i] } else { *rng.pick(&lens) };
+                let (l, forced_have) = if i < nforced {
+                    let f = forced[(start + i * 3) % forced.len()];
+                    (f.0, Some(f.1))
+                } else if i - nforced < lens.len() && count >= lens.len() {
+                    (lens[i - nforced], None)
+                } else {
+                    (*rng.pick(&lens), None)
+                };
                 let big = l > 4000;
-                if big && i % 8 != 0 && count < 2000 {
+                if big && forced_have.is_none() && i % 8 != 0 && count < 2000 {
                     continue;
                 }
                 let vc = 0x20 | rng.below(2) as u8;
                 let fam = rng.below(4) as u8;
                 let afp = (fam << 4) | rng.below(3) as u8;
-                let have = match rng.below(5) {
-                    0 => l.saturating_sub(1),
-                    1 => l,
-                    2 => l + 1,
-                    3 => rng.below(l as u64 + 1) as usize,
-                    _ => l,
+                let have = match forced_have {
+                    Some(h) => h,
+                    None => match rng.below(5) {
+                        0 => l.saturating_sub(1),
+                        1 => l,
+                        2 => l + 1,
+                        3 => rng.below(l as u64 + 1) as usize,
+                        _ => l,
+                    },
                 };
                 let fill = rng.next() as u8;
                 let mut body: Vec<u8> = distinct_body(have.min(240), rng);
@@ -657,6 +696,10 @@ pub fn generate(name: &str, count: usize, rng: &mut Rng, sink: &mut dyn FnMut(Se
                 }
                 if 16 + l < n {
                     cuts.push(16 + l);
+                }
+                if n > 65535 {
+                    cuts.push(65535);
+                    cuts.push(65534);
                 }
                 let chunks = split_at(&bytes, &cuts);
                 sink(Session { sid: format!("v2len-{}", i), tag: json!({"g": "v2len"}), chunks });
